@@ -115,59 +115,37 @@ def run(prop, key, direction):
 
 
 def plumbing(res, prop, facts, strict=True):
-    """validate_claim -> GenericParser::validate_claim -> set_validation_claim inserts (claim key, closure) into claim_validators"""
-    bs = [b for bid, b in facts.bodies.items() if re.search(r"GenericParser::<'a, 'b, Version, Purpose>::set_validation_claim$", bid)]
-    ok = False
-    why = "set_validation_claim not found"
-    if len(bs) == 1:
-        v = M.view(facts, bs[0])
-        N = M.Normalizer(facts, keep=[])
-        ins = v.find_calls(r"HashMap::<K, V, S, A>::insert$")
-        keys = []
-        for bi, t in ins:
-            ct = S.demut(N.norm(v.call_term(t, bi)))
-            tgt = ct.args[0]
-            p3 = len(ct.args) > 2 and any(x.op == "param" and x.name == 3 for x in ct.args[2].walk())
-            keys.append((M.show(tgt), M.show(ct.args[1])[:120], "param3" if p3 else M.show(ct.args[2])[:120] if len(ct.args) > 2 else ""))
-        val = [k for k in keys if "claim_validators" in k[0]]
-        ok = len(val) == 1 and "get_key" in val[0][1] and "param2" in val[0][1] and "param3" in val[0][2]
-        why = "inserts found: %s" % keys
-        if not ok and not strict:
-            # any registration into claim_validators keyed by the claim's key that receives the closure (e.g. entry(key).or_insert_with(..))
-            keyed = False
-            closure_used = False
-            for bi, t in v.calls:
-                ct = S.demut(N.norm(v.call_term(t, bi)))
-                txt = M.show(ct)
-                if "claim_validators" in txt and "get_key(param2)" in txt:
-                    keyed = True
-                if any(x.op == "param" and x.name == 3 for x in ct.walk()) and re.search(r"HashMap|Entry|insert", ct.name):
-                    closure_used = True
-            ok = keyed and closure_used
-            why = "no registration of the closure into claim_validators under the claim's key was found"
-        # forwarding chain
-        for name, inner in ((r"GenericParser::<'a, 'b, Version, Purpose>::validate_claim$", r"set_validation_claim$"), (r"PasetoParser::<'a, Version, Purpose>::validate_claim$", r"GenericParser::<.*>::validate_claim$")):
-            fb = [b for bid, b in facts.bodies.items() if re.search(name, bid)]
-            if len(fb) != 1:
-                ok = False
-                why = "forwarder %s missing" % name
-                break
-            fv = M.view(facts, fb[0])
-            cs = fv.find_calls(inner)
-            good = len(cs) == 1 and fv.op_term(cs[0][1]["args"][1]) == M.T("param", 2) and all(fv.cfg.dominates(cs[0][0], rb) for rb in fv.cfg.return_blocks())
-            fN = M.Normalizer(facts, keep=[])
-            if good:
-                a2 = fN.norm(fv.op_term(cs[0][1]["args"][2]))
-                good = any(x.op == "param" and x.name == 3 for x in a2.walk())
-            if not good:
-                ok = False
-                why = "%s does not forward (claim, closure) to %s on every path" % (M.short(fb[0]["id"]), inner)
-                break
+    """PasetoParser::validate_claim(value, closure) ends in claim_validators.insert(value.get_key(), closure) - decided by abstract
+    interpretation of the method (through whatever private helpers it uses); strict: HashMap::insert (a later registration replaces)."""
+    from .. import absint as A
+    from .. import models as MD
+    bs = [b for bid, b in facts.bodies.items() if re.search(r"PasetoParser::<'a, Version, Purpose>::validate_claim$", bid)]
+    if len(bs) != 1:
+        res.oblige(False)
+        res.violate(prop + ".R1", "PasetoParser::validate_claim", "anchor missing", "expected one PasetoParser::validate_claim, found %d" % len(bs))
+        return
+    b = bs[0]
+    v = M.view(facts, b)
+    I = A.Interp(facts, MD.MODELS)
+    st = A.State()
+    me = A.Sym("self")
+    outs = I.run(b, [A.Ptr(st.new_cell(me)), A.Sym("value"), A.Sym("closure")], st)
+    ok = bool(outs)
+    why = "no outcome"
+    for o in outs:
+        evs = [e for e in o.state.events if isinstance(e[1], list) and e[1] and isinstance(e[1][0], str) and e[1][0].endswith(".claim_validators")]
+        ins = [e for e in evs if e[0].endswith("::insert") and len(e[1]) >= 3 and e[1][1] == ("sym", "key(value)") and "closure" in str(e[1][2])]
+        keyed = [e for e in evs if len(e[1]) >= 2 and e[1][1] == ("sym", "key(value)")]
+        good = bool(ins) if strict else bool(keyed)
+        if o.kind != "return" or not good:
+            ok = False
+            why = "on path [%s] the validator table receives %s" % (" & ".join(o.state.cond), [(e[0], e[1][1:]) for e in evs] or "nothing")
     res.oblige(ok)
     if ok:
-        res.inst(prop + ".R1", "validate_claim forwards (claim, closure) down to claim_validators.insert(claim.get_key(), closure)")
+        res.inst(prop + ".R1", "validate_claim(value, closure) registers the closure in claim_validators under value.get_key()" + (" with HashMap::insert (replacing)" if strict else ""))
     else:
-        res.violate(prop + ".R1", "GenericParser::set_validation_claim", "validator registration plumbing", why[:400])
+        res.violate(prop + ".R1", b["id"], "validator registration plumbing", "validate_claim must store the closure in the validator table under the claim's key%s; %s" % (" with insert (last registration wins)" if strict else "", why[:300]),
+                    file=v.file(), line=b["line"])
 
 
 def evaluate(facts, cb, key):
